@@ -121,6 +121,11 @@ type vfBObs struct {
 	ByHash []int `json:"byHash"`
 	Anc    []int `json:"anc"`
 	Loc    []int `json:"loc"`
+	LocOf  [][]int `json:"locOf"`
+}
+
+type vfAux struct {
+	Conn int `json:"conn"`
 }
 
 type vfFObs struct {
@@ -134,6 +139,7 @@ type vfObs struct {
 	Up int    `json:"up"`
 	B  vfBObs `json:"B"`
 	F  vfFObs `json:"F"`
+	Aux vfAux `json:"aux"`
 }
 
 type vfStepIn struct {
@@ -166,7 +172,7 @@ type vfEnv struct {
 	b     *blockHeaderStore
 	f     *filterHeaderStore
 	up    bool
-	assertNext bool
+	assertNext int
 	n, h  int
 	hdr   []*wire.BlockHeader
 	hash  []chainhash.Hash
@@ -228,12 +234,20 @@ func (e *vfEnv) open() error {
 	}
 	e.b = b.(*blockHeaderStore)
 	var assertion *FilterHeader
-	if e.assertNext {
+	switch e.assertNext {
+	case 1:
 		// a header state assertion that matches the stored genesis filter
 		// header: start-up must behave exactly as without it
 		assertion = &FilterHeader{Height: 0, FilterHash: e.fh[0]}
+	case 2:
+		// another filter header at the caller's filter tip height: the
+		// filter store is reset
+		assertion = &FilterHeader{Height: uint32(len(e.absF) - 1), FilterHash: sha256.Sum256([]byte("not stored"))}
+	case 3:
+		// a height the store does not have
+		assertion = &FilterHeader{Height: uint32(len(e.absF)), FilterHash: sha256.Sum256([]byte("not stored"))}
 	}
-	e.assertNext = false
+	e.assertNext = 0
 	f, err := NewFilterHeaderStore(e.dir, pdb, RegularFilter, &chaincfg.SimNetParams, assertion)
 	if err != nil {
 		e.closeAll()
@@ -302,7 +316,7 @@ func (e *vfEnv) mkIDs() {
 			binary.BigEndian.PutUint32(buf[:], uint32(i))
 			e.hdr[i] = &wire.BlockHeader{
 				Version:    1,
-				PrevBlock:  sha256.Sum256(append([]byte("prev"), buf[:]...)),
+				PrevBlock:  e.hdr[i-1].BlockHash(), // id i is built on id i-1 (CheckConnectivity)
 				MerkleRoot: sha256.Sum256(append([]byte("mr"), buf[:]...)),
 				Timestamp:  time.Unix(1600000000+int64(i)*600, 0),
 				Bits:       0x207fffff,
@@ -325,6 +339,33 @@ func (e *vfEnv) mkIDs() {
 	for i := range e.fh {
 		e.byFH[e.fh[i]] = i
 	}
+}
+
+// toLegacyLayout rewrites the index the way a version before the hash-prefix
+// sub-buckets left it: every hash -> height entry directly in the root bucket.
+func (e *vfEnv) toLegacyLayout() error {
+	return walletdb.Update(e.db, func(tx walletdb.ReadWriteTx) error {
+		root := tx.ReadWriteBucket(indexBucket)
+		for i := range e.hash {
+			h := e.hash[i]
+			sub := root.NestedReadWriteBucket(h[0:numSubBucketBytes])
+			if sub == nil {
+				continue
+			}
+			v := sub.Get(h[:])
+			if v == nil {
+				continue
+			}
+			hv := append([]byte(nil), v...)
+			if err := sub.Delete(h[:]); err != nil {
+				return err
+			}
+			if err := root.Put(h[:], hv); err != nil {
+				return err
+			}
+		}
+		return nil
+	})
 }
 
 func (e *vfEnv) idOfHeader(h *wire.BlockHeader) int {
@@ -355,8 +396,13 @@ func (e *vfEnv) observe() vfObs {
 		o.Up = 0
 		o.B = vfBObs{Tip: []int{vERR, vERR}, ByH: vfFill(e.h, vERR), HOf: vfFill(e.n, vERR),
 			ByHash: vfFill(e.n, vERR), Anc: []int{vERR}, Loc: []int{vERR}}
+		o.B.LocOf = make([][]int, e.n)
+		for i := range o.B.LocOf {
+			o.B.LocOf[i] = []int{vERR}
+		}
 		o.F = vfFObs{Tip: []int{vERR, vERR}, ByH: vfFill(e.h, vERR), ByHash: vfFill(e.n, vERR),
 			Anc: []int{vERR}}
+		o.Aux.Conn = vERR
 		return o
 	}
 	o.Up = 1
@@ -415,6 +461,25 @@ func (e *vfEnv) observe() vfObs {
 				o.B.Loc[i] = vG
 			}
 		}
+	}
+
+	o.B.LocOf = make([][]int, e.n)
+	for i := 0; i < e.n; i++ {
+		o.B.LocOf[i] = []int{vERR}
+		if loc, err := e.b.BlockLocatorFromHash(&e.hash[i]); err == nil {
+			o.B.LocOf[i] = make([]int, len(loc))
+			for k, h := range loc {
+				if id, ok := e.byBH[*h]; ok {
+					o.B.LocOf[i][k] = id
+				} else {
+					o.B.LocOf[i][k] = vG
+				}
+			}
+		}
+	}
+	o.Aux.Conn = 0
+	if err := e.b.CheckConnectivity(); err != nil {
+		o.Aux.Conn = vERR
 	}
 
 	// filter store
@@ -539,12 +604,17 @@ func (e *vfEnv) exec(a vfAct) (vfAct, []vfStepOut) {
 		}
 	case "Reopen", "Recover":
 		e.closeAll()
-		e.assertNext = a.N == 1
+		e.assertNext = a.N
 		if err := e.open(); err != nil {
 			out.Res = "err"
 		} else {
 			out.Res = "ok"
 		}
+	case "Legacy":
+		if err := e.toLegacyLayout(); err != nil {
+			panic(err)
+		}
+		out.Res = "ok"
 	case "Crash":
 		out.Res = "crash"
 	default:
